@@ -142,7 +142,14 @@ class C12(Prop):
             "headers and raw-request headers in order; c12.runlive: such batches (3-6 cases differing in codec / compression / stream type / GET) "
             "through the real in-process reference client to the real in-process reference server (one per batch; HTTP/1.1 and HTTP/2, plain / TLS / "
             "TLS + client certificate, 3 protocols): the x-* headers each case was sent with and whether the server wrote feedback about it "
-            "(model: never, for the reference client's rendering). non-trivial = some feedback or an accepted timeout or a sent request")
+            "(model: never, for the reference client's rendering). "
+            "c12.print: sequences of general requests on one referenceServerChecks handler whose printer is the REAL internal.NewPrinter over a buffer (as "
+            "run() wires it to the server's stderr; a tee next to it remembers format and arguments): every one of 28 test names that would be read as a "
+            "format (%, %s, %d, %%, %v, %!, explicit argument indexes, flags, trailing %, `: ` inside, leading / trailing blank) x 12 deviations (10 whose "
+            "message has format arguments) + repeats, then 1500 / 30000 random sequences over such names and names drawn from the rng - per request "
+            "whether the bytes in the buffer are exactly `name: message newline` per message, and the lines read back as server_runner.go reads the "
+            "server's stderr (trim, split at the first `: `, look-up among the case's names): (test name, feedback kind) per line, the kind only when the "
+            "text after the split is the formatted message. non-trivial = some feedback or an accepted timeout or a sent request")
     trusted_base = ("Coq 8.16.1 kernel (vm_compute used, native_compute not)", "extraction (ExtrOcamlBasic only) + ocaml/driver.ml",
                     "vlib generators/comparator, Go overlay harness (request construction from the record, feedback-kind mapping)",
                     "modelled, sampled by c12.wire / c12.live, not verified: net/http header canonicalisation, url.Values parsing, req.TLS and "
@@ -152,6 +159,9 @@ class C12(Prop):
                     "the runner model (run_batch) covers the header construction of runTestCasesForServer only (start-up exchange: certificate present or not; "
                     "process supervision, results and the client's transfer of request headers to the wire = put_headers are sampled by c12.runner / c12.runlive); "
                     "the reference client sends small GET requests uncompressed, so GET is run live (and claimed for the reference client) under identity only, as in the shipped suites; "
+                    "the printer model (prefix_printf) takes the formatted message as given: package fmt is not modelled (c12.print compares with fmt.Sprintf of the recorded format and arguments); "
+                    "that createServer hands run()'s printer on to the checks unchanged is sampled by c12.live (with a recording printer), the real printer is driven under referenceServerChecks directly (c12.print); "
+                    "the runner's reading end (sideband) is mirrored in the c12.print harness (TrimSpace / SplitN / set look-up, ASCII white space), the real goroutine of runTestCasesForServer is exercised by c12.runlive only on silent runs; "
                     "whitespace trimming of header values and connect.ErrorWriter are outside the model; float64 arithmetic of time.Duration.Hours/Minutes/Seconds enters the theorems as hypothesis "
                     "float_quot_ok (within 1 of the truncated quotient, exact on multiples), exercised at the overflow boundaries")
     assumptions = ("requests reach the checks as net/http delivers them (canonical header keys, parsed query)",
@@ -165,6 +175,9 @@ class C12(Prop):
                   "with exact/saturating duration, removal and echo; that every request of every batch the runner sends carries exactly the "
                   "headers computed from its own test case (any position, any neighbours), which describe that case's set-up, so that the "
                   "server is silent on it exactly for a client rendering that set-up (the reference client's rendering in particular); "
+                  "that the printer run() puts on the server's stderr writes, for every test name (any bytes, verbs included) and every message, exactly "
+                  "`name: message newline`, that the model's feedback is, line by line, what reaches stderr (so the theorems above speak about those bytes: "
+                  "stderr stays empty exactly on matching pairs) and that the runner's reading end attributes each line to that test with that message; "
                   "the model is tied to the Go code by the full-matrix, bounded-exhaustive "
                   "and live (real createServer) differential run.")
     level_note = ("Trusted: Coq kernel, extraction, OCaml driver, harness; model-code correspondence is tested (full matrix, exhaustive "
@@ -172,7 +185,9 @@ class C12(Prop):
                   "and every test name; those about timeouts, repeats, trailers and nameless requests over all byte strings / requests / "
                   "histories / event interleavings. The documented HTTP/1.1-bidi exemption is empty at the level of feedback (the unchanged code applies "
                   "the workaround after the checks): silent_iff_match holds for all five procedures without exception; the exemption is what "
-                  "bidi_exemption_scope / bidi_served_over_http1 state. Nothing is partial. float64 duration conversion is a hypothesis (float_quot_ok), inhabited by the exact quotient.")
+                  "bidi_exemption_scope / bidi_served_over_http1 state. The line theorems hold for all byte strings as names and messages; attribution by the runner is claimed for names without `: ` inside and not beginning with white space "
+                  "(the runner splits at the first `: ` and trims: other names are not attributed by the unchanged code either - stated, with an example, not hidden). "
+                  "Nothing is partial. float64 duration conversion is a hypothesis (float_quot_ok), inhabited by the exact quotient.")
     technique = ("Coq proof (per-aspect case analysis over the finite matrix, induction on digit strings, histories and begin/end event "
                  "interleavings, int64 wrap-around arithmetic, refuted variant of the handler order) about a model of checks.go and of "
                  "createServer's handler chain; differential model-vs-Go correspondence incl. live HTTP/TLS requests to the real server")
